@@ -148,7 +148,7 @@ func metaMain(args mon.Args) {
 		}
 		tuID := uint16(g.Range(256, 65535))
 		for used[tuID] {
-			tuID++
+			tuID = uint16(g.Range(256, 65535)) // not id+1: 65535+1 is set id 0
 		}
 		used[tuID] = true
 		tu := &wire.Template{ID: tuID}
@@ -228,7 +228,7 @@ func metaMain(args mon.Args) {
 				case "unknown-template":
 					id := uint16(g.Range(256, 65535))
 					for used[id] {
-						id++
+						id = uint16(g.Range(256, 65535)) // not id+1: 65535+1 is set id 0
 					}
 					u.SetID = id
 				case "missing-element":
@@ -305,7 +305,7 @@ func metaMain(args mon.Args) {
 				case 1:
 					id := uint16(g.Range(256, 65535))
 					for used[id] {
-						id++
+						id = uint16(g.Range(256, 65535)) // not id+1: 65535+1 is set id 0
 					}
 					u.SetID = id
 					kinds["unknown-template"]++
@@ -343,7 +343,7 @@ func metaMain(args mon.Args) {
 			}
 			yID := uint16(g.Range(256, 65535))
 			for used[yID] {
-				yID++
+				yID = uint16(g.Range(256, 65535)) // not id+1: 65535+1 is set id 0
 			}
 			used[yID] = true
 			tY := *ds.Tpl
